@@ -247,16 +247,6 @@ static std::string issueList(const LoggerPtr &l)
     return o;
 }
 
-static std::string issueList(const LoggerPtr &l)
-{
-    std::string o = "n=" + std::to_string(l->issueCount());
-    for (size_t i = 0; i < l->issueCount(); ++i) {
-        auto is = l->issue(i);
-        o += " " + issueLevelLetter(is->level()) + ":" + std::to_string(int(is->referenceRule()));
-    }
-    return o;
-}
-
 // the Validator runs in a forked grandchild: hand-shaped documents may yield models outside its own domain
 // (units cycles: findings of C01) on which it can die or run for very long
 static std::string validateIssues(const ModelPtr &m)
